@@ -620,3 +620,103 @@ Example rank_deficient_edom_satisfiable :
   rows_deficient (SolveSimple.unknowns LayoutGen.T8 1 1) (q_assemble LayoutGen.T8 1 1 (vals 0) (pvalf 0) 0) /\
   CM.solve o CM.NoFault st = (st, CM.Err CM.EDOM).
 Proof. exact rank_deficient_edom_example. Qed.
+
+(* ==================================================================================================
+   Session 5, second part: the link between the two models of _vnacal_new_add_common (coq/SolveCount/DeterminingLink*.v),
+   which discharges the hypothesis counts_agree of the join theorems.
+   to_cal_args translates a call of the count model into a call of Cal.AddModel (slot k = handle k, slot 0 = VNACAL_ZERO).
+   link_ok cf a: where CountModel.check_args accepts, AddModel.add_common returns Accepted m with the SAME equations
+   (system, row, column) IN THE SAME ORDER as CountModel.gen_equations, the same full S matrix and the same connectivity
+   matrix; where it rejects, add_common returns Rejected; Undefined: no claim.
+   PROVED IN GENERAL (every configuration, every history): if every call of a history satisfies link_ok, the two models count
+   the same equations per system after the history (counts_link), hence counts_agree (counts_agree_of_link) and the join
+   theorems without that hypothesis (count_and_rank_solve_linked, rank_deficient_edom_linked).
+   BOUNDED: link_ok itself is decided by the kernel VM on an explicit sweep - all 8 types x dimensions 1..3 x 1..3 that
+   vnacal_new_alloc accepts (48 configurations) x seven call generators: 138354 calls (link_sweep_counts), and 25346 calls
+   with error modelling on T16/U16 - not proved for all arguments (argument checks, sorted port map, zero fill,
+   iterated closure = union-find closure, build_terms never asserts: see docs/design_C20.md).  For a concrete history the
+   hypothesis is decidable by vm_compute. *)
+Require Import NArith.
+Require Import LV.SolveCount.DeterminingLinkModel LV.SolveCount.DeterminingLinkProofs LV.SolveCount.DeterminingLinkJoin LV.SolveCount.DeterminingLinkExamples.
+
+Theorem link_swept_bounded : forall x, In x link_cases -> link_ok (fst x) (snd x) = true.
+Proof. exact link_swept_bounded_lemma. Qed.
+Print Assumptions link_swept_bounded.
+
+Theorem link_swept_merr_bounded : forall x, In x link_cases_16 -> link_ok_m (fst x) true (snd x) = true.
+Proof. exact link_swept_merr_bounded_lemma. Qed.
+Print Assumptions link_swept_merr_bounded.
+
+(* the bound: categories = single reflect, double reflect, through/line, full P x P mapped matrix, smaller square mapped
+   matrix, rectangular / out-of-range S dimensions, diagonal on 3 ports *)
+Theorem link_sweep_counts :
+  length configs = 48 /\
+  map count_cat categories = [4122; 30490; 44274; 37376; 9996; 10176; 1920]%N /\
+  N.of_nat (length link_cases) = 138354%N /\
+  count_verdict CM.Accept = [864; 1840; 6256; 21920; 6132; 384; 1152]%N /\
+  count_verdict CM.Reject = [3258; 28650; 38018; 15456; 3864; 9792; 768]%N /\
+  count_verdict CM.Undefined = [0; 0; 0; 0; 0; 0; 0]%N /\
+  (N.of_nat (length link_cases_16),
+   N.of_nat (length (filter (fun x => verdict_is (CM.check_args (fst x) (snd x)) CM.Accept) link_cases_16)),
+   N.of_nat (length (filter (fun x => CP.accepted (fst x) true (snd x)) link_cases_16))) = (25346, 7818, 5622)%N.
+Proof. exact link_case_counts. Qed.
+
+(* general: every configuration, every history *)
+Theorem counts_link (cf : CM.config) (F : nat) (v : bool) (l : list CM.add_args) (k : nat) :
+  Forall (fun a => link_ok cf a = true /\ defined cf a = true) l ->
+  k < CM.systems (CM.cf_ty cf) (CM.cf_c cf) ->
+  CM.sys_count (CP.run_adds (CM.init cf F v) l) k =
+  length (system_equations (cty (CM.cf_ty cf)) (cal_run [] (map (to_cal_args cf false) l)) k).
+Proof. exact (counts_link_lemma cf F v l k). Qed.
+Print Assumptions counts_link.
+
+Theorem counts_agree_of_link (cf : CM.config) (F : nat) (l : list CM.add_args)
+      (vals : nat -> list (mvals qops)) (pvalf : nat -> Z -> qi) :
+  Forall (fun a => link_ok cf a = true /\ defined cf a = true) l ->
+  (forall f, f < F -> map (mv_meas qops) (vals f) = cal_run [] (map (to_cal_args cf false) l)) ->
+  counts_agree (CP.run_adds (CM.init cf F true) l) vals pvalf.
+Proof. exact (counts_agree_of_link_lemma cf F l vals pvalf). Qed.
+Print Assumptions counts_agree_of_link.
+
+Theorem count_and_rank_solve_linked (o : CM.oracle) (cf : CM.config) (F : nat) (l : list CM.add_args)
+      (vals : nat -> list (mvals qops)) (pvalf : nat -> Z -> qi) :
+  let st := CP.run_adds (CM.init cf F true) l in
+  let ty := cty (CM.cf_ty cf) in
+  let ns := CM.systems (CM.cf_ty cf) (CM.cf_c cf) in
+  Forall (fun a => link_ok cf a = true /\ defined cf a = true) l ->
+  (forall f, f < F -> map (mv_meas qops) (vals f) = cal_run [] (map (to_cal_args cf false) l)) ->
+  CM.solve_path st = CM.PSimple -> oracle_is_model o st vals pvalf ->
+  CM.count_deficient st = false ->
+  (forall f k, f < F -> k < ns ->
+     kernel_trivial (SolveSimple.unknowns ty (CM.cf_r cf) (CM.cf_c cf))
+                    (q_assemble ty (CM.cf_r cf) (CM.cf_c cf) (vals f) (pvalf f) k)) ->
+  (forall f, f < F -> o (CM.view_of st) f ns = true) ->
+  CM.solve o CM.NoFault st = (CP.solved st, CM.Ok).
+Proof. exact (count_and_rank_solve_linked_lemma o cf F l vals pvalf). Qed.
+Print Assumptions count_and_rank_solve_linked.
+
+(* "enough equations" is now the count test of the count model, through the link *)
+Theorem rank_deficient_edom_linked (o : CM.oracle) (cf : CM.config) (F : nat) (l : list CM.add_args)
+      (vals : nat -> list (mvals qops)) (pvalf : nat -> Z -> qi) (f k : nat) :
+  let st := CP.run_adds (CM.init cf F true) l in
+  let n := SolveSimple.unknowns (cty (CM.cf_ty cf)) (CM.cf_r cf) (CM.cf_c cf) in
+  Forall (fun a => link_ok cf a = true /\ defined cf a = true) l ->
+  (forall f, f < F -> map (mv_meas qops) (vals f) = cal_run nil (map (to_cal_args cf false) l)) ->
+  CM.solve_path st = CM.PSimple -> oracle_is_model o st vals pvalf ->
+  CM.count_deficient st = false ->
+  f < F -> k < CM.systems (CM.cf_ty cf) (CM.cf_c cf) ->
+  rows_deficient n (q_assemble (cty (CM.cf_ty cf)) (CM.cf_r cf) (CM.cf_c cf) (vals f) (pvalf f) k) ->
+  CM.solve o CM.NoFault st = (st, CM.Err CM.EDOM).
+Proof. exact (count_ok_rank_deficient_edom_linked_lemma o cf F l vals pvalf f k). Qed.
+Print Assumptions rank_deficient_edom_linked.
+
+Example count_and_rank_solve_linked_satisfiable :
+  let st := CP.run_adds (CM.init cm_cf 1 true) lk_calls in
+  let vals := fun _ : nat => ms_of [3; 4; 5; 6]%Z in
+  let pvalf := fun _ : nat => EndToEnd.ex_pval4 in
+  let o := model_oracle vals pvalf in
+  Forall (fun a => link_ok cm_cf a = true /\ defined cm_cf a = true) lk_calls /\
+  (forall f, f < 1 -> map (mv_meas qops) (vals f) = cal_run [] (map (to_cal_args cm_cf false) lk_calls)) /\
+  counts_agree st vals pvalf /\
+  CM.solve o CM.NoFault st = (CP.solved st, CM.Ok).
+Proof. exact count_and_rank_linked_example. Qed.
